@@ -37,13 +37,14 @@ inductive TokOk : Tk → Bytes → Prop
   | dollar (c : UInt8) (k : Bytes) (rest) (hk : alnumBytes (c :: k) = true)
       (hl : ∀ r w, runeAt (c :: k) = some (r, w) → letterR r = true)
       (hr : WordEnd rest) : TokOk ⟨.tDollarIdent, 36 :: c :: k⟩ rest
-  | dot (c : UInt8) (k : Bytes) (rest) (hk : alnumBytes (c :: k) = true) (hr : WordEnd rest) :
+  /-- `.3` / `.name`: an index begins with an ASCII digit, a name with a letter (of any script) or `_`
+      (/repo 8984077: `$a.` and `.٣` are no longer names) -/
+  | dot (c : UInt8) (k : Bytes) (rest) (hk : alnumBytes (c :: k) = true)
+      (hl : isDig c = false → ∀ r w, runeAt (c :: k) = some (r, w) → letterR r = true) (hr : WordEnd rest) :
       TokOk ⟨if isDig c then .tDotIndex else .tDotIdent, 46 :: c :: k⟩ rest
-  | qdot (c : UInt8) (k : Bytes) (rest) (hk : alnumBytes (c :: k) = true) (hr : WordEnd rest) :
+  | qdot (c : UInt8) (k : Bytes) (rest) (hk : alnumBytes (c :: k) = true)
+      (hl : isDig c = false → ∀ r w, runeAt (c :: k) = some (r, w) → letterR r = true) (hr : WordEnd rest) :
       TokOk ⟨if isDig c then .tQuestionDotIndex else .tQuestionDotIdent, 63 :: 46 :: c :: k⟩ rest
-  /-- a dangling `.` / `?.`: the access with the empty key (`$a.` is accepted by the parser) -/
-  | dot0 (rest) (hr : WordEnd rest) : TokOk ⟨.tDotIdent, [46]⟩ rest
-  | qdot0 (rest) (hr : WordEnd rest) : TokOk ⟨.tQuestionDotIdent, [63, 46]⟩ rest
   | num (val : Bytes) (typ : ItemType) (rest) (hs : NumShape val typ) (hr : NumEnd rest) : TokOk ⟨typ, val⟩ rest
   | str (val : Bytes) (rest) (hs : strOk val = true) : TokOk ⟨.tString, val⟩ rest
 
@@ -119,10 +120,8 @@ theorem tok_step {inp : Array UInt8} {p : Nat} {t : Tk} {rest : Bytes} {le : Ite
     | elvis => exact step_elvis (s := 32 :: r) h le its
   | word c k rt _ hc hk hr hl => exact ⟨2, by omega, by omega, run_of_step2 (step_word T h hc hk hr rt hl le its)⟩
   | dollar c k _ hk hl hr => exact ⟨2, by omega, by omega, run_of_step2 (step_dollar T h hk hl hr le its)⟩
-  | dot c k _ hk hr => exact ⟨2, by omega, by omega, run_of_step2 (step_dot T h hk hr le its)⟩
-  | qdot c k _ hk hr => exact ⟨2, by omega, by omega, run_of_step2 (step_qdot T h hk hr le its)⟩
-  | dot0 _ hr => exact ⟨2, by omega, by omega, run_of_step2 (step_dot0 T h hr le its)⟩
-  | qdot0 _ hr => exact ⟨2, by omega, by omega, run_of_step2 (step_qdot0 T h hr le its)⟩
+  | dot c k _ hk hl hr => exact ⟨2, by omega, by omega, run_of_step2 (step_dot T h hk hl hr le its)⟩
+  | qdot c k _ hk hl hr => exact ⟨2, by omega, by omega, run_of_step2 (step_qdot T h hk hl hr le its)⟩
   | num val typ _ hs hr =>
     refine ⟨2, by omega, by omega, run_of_step2 (step_number T h hs hr le its ?_)⟩
     intro _
